@@ -44,8 +44,15 @@ package loop
 // ---- C01: loop detection does not leak map iteration order into its result
 //@ func DetectLoops
 //@   noframe
-//@   protocol-only C01
+//@   protocol-only C01 C12
 //@   deterministic C01
+// C12: the exit list of a loop is complete: every block of the loop with a successor outside the loop is in it
+// (the trip count is derived only for loops with a single exit). pos (ghost): where a block went in Exits.
+//@   ghost pos map[int]int
+//@   loop 4 update pos = ite(len(loop.Exits) > prev(len(loop.Exits)), store(prev(pos), b, prev(len(loop.Exits))), prev(pos))
+//@   loop 4 invariant [C12.exits] forall x in #visited :: (exists j in 0..len(x.Succs) :: !loop.Blocks[x.Succs[j]]) ==> 0 <= pos[x] && pos[x] < len(loop.Exits) && loop.Exits[pos[x]] == x
+//@   loop 5 invariant [C12.exits] 0 <= #i && #i <= len(b.Succs) && (forall j in 0..#i :: loop.Blocks[b.Succs[j]]) && len(loop.Exits) == pre(len(loop.Exits))
+//@   loop 5 invariant [C12.exits] forall x in #visited :: x != b && (exists j in 0..len(x.Succs) :: !loop.Blocks[x.Succs[j]]) ==> 0 <= pos[x] && pos[x] < len(loop.Exits) && loop.Exits[pos[x]] == x
 //@   uses ssaidx
 //@ func DetectLoops$1
 //@   requires 0 <= i && i < len(*headers) && 0 <= j && j < len(*headers)
